@@ -940,8 +940,8 @@ def main():
     except common.HarnessError as e:
         print("HARNESS ERROR:", e)
         rep.obligation("harness", "inconclusive", why=str(e))
-        rep.finish()
-        return 2
+        rc = rep.finish()
+        return 1 if rep.violations else 2      # replayed violations found before the harness gave up are still violations
     return rep.finish()
 
 
